@@ -18,7 +18,7 @@ AST:
 import itertools
 
 FN_NAMES = ['$eq', '$eq_type', '$odd']
-STEP_CAP = 300000
+STEP_CAP = 60000
 
 
 # ----------------------------------------------------------------------------------------- repo access
@@ -528,6 +528,24 @@ def gen_schema(rng, signing=True, size=None):
             higher = [q for q in ids if q in length and rank[q] > rank.get(base, 0)]
             if higher and rng.random() < 0.6:
                 r['sign'] = sorted(set(rng.sample(higher, min(len(higher), rng.choice([1, 1, 2])))))
+    # motif: a rule with a constrained temporary (or named) pattern referred to twice in one name
+    if rng.random() < 0.3:
+        pat = rng.choice(TEMPS + TEMPS + named[:1])
+        body = [['pat', pat], ['lit', rng.choice(lits)]]
+        rng.shuffle(body)
+        if rng.random() < 0.3:
+            body = [['pat', pat]]
+        cons = [[{'pat': pat, 'opts': [['lit', rng.choice(lits)]] + ([['lit', rng.choice(lits)]] if rng.random() < 0.3 else [])}]]
+        if rng.random() < 0.25:
+            cons.append([{'pat': pat, 'opts': [gen_opt(rng, [], lits)]}])
+        rules.append({'id': '#t1', 'name': body, 'cons': cons, 'sign': []})
+        outer = [['ref', '#t1'], ['ref', '#t1']]
+        if rng.random() < 0.4:
+            outer.insert(rng.randrange(3), ['lit', rng.choice(lits)] if rng.random() < 0.6 else ['pat', rng.choice(named)])
+        if len(body) * 2 + len(outer) - 2 <= MAXLEN:
+            rules.append({'id': '#t2', 'name': outer, 'cons': [], 'sign': []})
+            if rng.random() < 0.3 and len(body) * 2 + len(outer) - 1 <= MAXLEN:
+                rules.append({'id': '#t3', 'name': [['ref', '#t2'], ['lit', rng.choice(lits)]], 'cons': [], 'sign': []})
     rng.shuffle(rules)
     return {'rules': rules}
 
@@ -589,6 +607,74 @@ def gen_names(rng, schema, spec, count, maxlen=MAXLEN):
             names.append(nm)
         else:
             names.append([rng.choice(alpha) for _ in range(rng.randint(1, maxlen))])
+    uniq = []
+    for n in names:
+        if n not in uniq:
+            uniq.append(n)
+    return uniq
+
+
+def _instance(rng, spec, alpha, atoms, cons, sigma0, tries=12):
+    """a name (component strings) satisfying the alternative under bindings sigma0 (name -> string), or None"""
+    for _ in range(tries):
+        vals, nm = dict(sigma0), []
+        for a in atoms:
+            if a[0] == 'lit':
+                nm.append(next((x for x in alpha if comp(x) == a[1]), alpha[0]))
+            elif a[0] == 'named':
+                if a[1] not in vals:
+                    hint = [o[1] for tg, opts in cons if tg == ('named', a[1]) for o in opts if o[0] == 'lit']
+                    vals[a[1]] = rng.choice(hint) if hint and rng.random() < 0.7 else rng.choice(alpha)
+                nm.append(vals[a[1]])
+            else:
+                hint = [o[1] for tg, opts in cons if tg[0] == 'temp' and a[1] in tg[1] for o in opts if o[0] == 'lit']
+                nm.append(rng.choice(hint) if hint and rng.random() < 0.7 else rng.choice(alpha))
+        try:
+            b = spec.match_chain(atoms, cons, [comp(x) for x in nm], {k: comp(v) for k, v in sigma0.items()})
+        except Exception:       # noqa (a user function raised)
+            b = None
+        if b is not None:
+            return nm, vals
+    return None
+
+
+def gen_sign_names(rng, schema, spec, count):
+    """names for the signing check: packet instances of alternatives that have signers, key instances of the
+    signer alternatives under the packet's bindings, and near misses (one shared pattern changed)"""
+    alpha = alphabet(schema)
+    try:
+        chains = spec.all_chains()
+    except (SpecError, RecursionError):
+        return []
+    signed = [c for c in chains if c[4]]
+    names = []
+    for _ in range(count):
+        if not signed:
+            break
+        rid, _, atoms, cons, sign = rng.choice(signed)
+        inst = _instance(rng, spec, alpha, atoms, cons, {})
+        if inst is None:
+            continue
+        pkt, vals = inst
+        names.append(pkt)
+        keys = [c for c in chains if c[0] in sign]
+        if not keys:
+            continue
+        _, _, katoms, kcons, _ = rng.choice(keys)
+        named = {a[1] for a in atoms if a[0] == 'named'}
+        sigma = {k: v for k, v in vals.items() if k in named}
+        kin = _instance(rng, spec, alpha, katoms, kcons, sigma)
+        if kin is not None:
+            names.append(kin[0])
+            if rng.random() < 0.5 and kin[0]:
+                miss = list(kin[0])
+                miss[rng.randrange(len(miss))] = rng.choice(alpha)
+                names.append(miss)
+        else:
+            # the key alternative cannot be satisfied under the packet's bindings: offer a free instance
+            kfree = _instance(rng, spec, alpha, katoms, kcons, {})
+            if kfree is not None:
+                names.append(kfree[0])
     uniq = []
     for n in names:
         if n not in uniq:
